@@ -47,6 +47,17 @@ def main(argv):
         with open(argv[1]) as f:
             rp = json.load(f)
         mod = load(rp["property"])
+        if isinstance(rp.get("case"), dict) and "shard_spec" in rp["case"]:
+            # witness "the code under test raised during the workload": re-run that shard, the exception propagates
+            try:
+                mod.run_shard(rp["case"]["shard_spec"])
+            except Exception as ex:
+                import traceback
+                traceback.print_exc()
+                print(f"reproduced: {type(ex).__name__}: {ex}")
+                return 1
+            print("replay: the shard ran to its end without an exception")
+            return 0
         if not hasattr(mod, "replay"):
             print("no replay function; witness:\n" + json.dumps(rp, indent=1)[:4000])
             return 2
